@@ -1258,7 +1258,7 @@ class MindsDBParser(Parser):
         if hasattr(p, 'identifier'):
             entity.alias = p.identifier
         if hasattr(p, 'dquote_string'):
-            entity.alias = Identifier(p.dquote_string)
+            entity.alias = Identifier(parts=[p.dquote_string])
         return entity
 
     # native query
@@ -1342,9 +1342,9 @@ class MindsDBParser(Parser):
         # if col.alias:
         #     raise ParsingException(f'Attempt to provide two aliases for {str(col)}')
         if hasattr(p, 'dquote_string'):
-            alias = Identifier(p.dquote_string)
+            alias = Identifier(parts=[p.dquote_string])
         elif hasattr(p, 'quote_string'):
-            alias = Identifier(p.quote_string)
+            alias = Identifier(parts=[p.quote_string])
         else:
             alias = p.identifier
         col.alias = alias
@@ -1771,6 +1771,9 @@ class MindsDBParser(Parser):
     @_('id', 'dquote_string')
     def identifier(self, p):
         value = p[0]
+        if hasattr(p, 'dquote_string'):
+            # quoted text is one name: dots inside it are not separators
+            return Identifier(parts=[value])
         return Identifier.from_path_str(value)
 
     @_('PARAMETER')
